@@ -41,6 +41,38 @@ CHECKS = {
              "reference decoder on every real fragment.",
         note="non-zero command header (true of all 145 commands); 247 regenerated from frames.py",
         design="7/C09"),
+    "C01": dict(
+        technique="Lean 4 proof: generic resynchronising-scanner theory (chunk independence by strong induction on "
+                  "the buffer), the concrete _extract_frame model shown to be a Scanner (verdict stable under "
+                  "extension), find-based resync = canonical skip; differential rx sessions under all chunkings",
+        text="Kernel-checked for every stream, chunking and handler: the frames handed up are those of the "
+             "left-to-right parse of the whole stream, after every read the deliveries are those of the prefix "
+             "received so far, the pending buffer agrees up to rejected garbage. Tied by running the real "
+             "data_received against the compiled model after every chunk (hostile streams x whole/byte-wise/"
+             "single-cut/random chunkings) and by checking chunk independence, prefix-exactness and ACK acceptance "
+             "on the implementation's own output.",
+        note="first-flagged frames carry >= 4 body bytes (DESIGN 8.5); handler does not re-enter the protocol",
+        design="7/C01"),
+    "C02": dict(
+        technique="Lean 4 proof: exceptions as values, the raised outcome of the extractor unreachable, handler "
+                  "independence, pending buffer is always a legitimately-waiting prefix (< 65537 bytes); differential "
+                  "rx sessions in every link state with raising handlers and probe frames",
+        text="Kernel-checked: no buffer content drives _extract_frame to an exception other than the two it handles; "
+             "handler failures change nothing; what stays buffered is < 7 bytes or the start of a checksum-valid "
+             "header's extent, so input always drains. Tied by driving the real receiver with every checksum-valid "
+             "header length 0..12 x flag byte, ACKs of every sequence value in every link state, raising handlers, "
+             "each followed by probe frames that must be delivered and acknowledged.",
+        note="not-deaf for extents > 330 bytes rests on the bounded-pending theorem, the probe flushes 330 bytes",
+        design="7/C02"),
+    "C06": dict(
+        technique="Lean 4 proof: ordered write/deliver log is a function of the accepted frames (log-shape theorem "
+                  "for every stream, chunking, handler); differential rx log",
+        text="Kernel-checked: the log of transport writes and hand-ups equals, over the accepted frames in stream "
+             "order, nothing for ACKs and [ACK(own seq), deliver] for data frames; the ACK written is the "
+             "well-formed ACK of C05. Tied by comparing the real receiver's interleaved log with the model and with "
+             "the theorem's shape computed from the Lean parse, with raising handlers.",
+        note="handler does not re-enter the protocol object",
+        design="7/C06"),
 }
 
 NOT_YET = "check not built yet in this revision of /verif (planned, see DESIGN.md section 7)"
